@@ -38,7 +38,7 @@ func c06Pool(pat string, dns bool) (texts []string) {
 	seen := map[string]bool{}
 	for _, exc := range []bool{false, true} {
 		for _, imp := range []bool{false, true} {
-			for _, dom := range []bool{false, true} {
+			for _, dom := range []string{"", "domain=site.com", "domain=~other.org"} {
 				for _, doc := range []string{"", "document", "urlblock", "genericblock", "elemhide", "urlblock,genericblock"} {
 					for _, rw := range []bool{false, true} {
 						for _, bad := range []bool{false, true} {
@@ -46,15 +46,16 @@ func c06Pool(pat string, dns bool) (texts []string) {
 								if !exc && (doc != "" || st) {
 									continue
 								}
-								if dns && (dom || doc != "" || st) {
+								if dns && (dom != "" || doc != "" || st) {
 									continue
 								}
 								var mods []string
 								if imp {
 									mods = append(mods, "important")
 								}
-								if dom {
-									mods = append(mods, "domain=site.com")
+								if dom != "" {
+									// "~other.org": only negated entries -- still a GENERIC rule
+									mods = append(mods, dom)
 								}
 								if doc != "" {
 									mods = append(mods, doc)
@@ -345,6 +346,17 @@ func genC06Engine(r *rng, n int, w *bufio.Writer) {
 					fmt.Fprintf(w, "assert c06.enginepanic %s = F ## Engine.MatchRequest panicked over [%s]\n", wstrs(ts), strings.Join(ts, "  ;  "))
 				}
 				_ = mapped
+				// NetworkEngine.Match: the verdict over the matching rules alone (no referrer rules)
+				ncls := guardStr(func() string {
+					nr, ok := ne.Match(req())
+					if ok != (nr != nil) {
+						return "BADFLAG"
+					}
+
+					return c08Class(nr)
+				})
+				fmt.Fprintf(w, "c06.result %s () = %s ## NetworkEngine.Match over lists [%s]: rules [%s]\n", c06Enc(rs), ncls,
+					strings.Join(ts, "  ;  "), c06Texts(rs))
 				classes = append(classes, cls)
 				shuffle(r, ts)
 			}
